@@ -37,7 +37,8 @@ def is_unqualified_table_expression(expression: exp.Expression) -> tuple[bool, b
             no_schema = False
         elif parent_kind.upper() == "SCHEMA":
             # "CREATE/DROP SCHEMA"
-            no_database = not node.args.get("catalog")
+            # NB: in "DROP SCHEMA IF EXISTS db1.schema1" sqlglot puts the schema in this and the database in db
+            no_database = not node.args.get("db" if node.args.get("this") else "catalog")
             no_schema = False
         elif parent_kind.upper() in {"TABLE", "VIEW"}:
             # "CREATE/DROP TABLE/VIEW"
